@@ -107,6 +107,7 @@ def shape_stats(S):
         m = r["decl"]["meta"]
         st["nodes_hist"][str(m["n"])] = st["nodes_hist"].get(str(m["n"]), 0) + 1
         st["structs"] += m["structnode"] is not None
+        st["struct_binds"] = st.get("struct_binds", 0) + bool(m.get("struct_bind"))
         if m.get("nested"):
             st["nested_structs"] += 1
             sts = [p["type"] for p in r["decl"]["provs"] if p["kind"] == "struct"]
